@@ -350,6 +350,16 @@ func runScenario(sc scenario) func(t *testing.T, x *gate.Exec) {
 							}
 						}
 					}
+					if faults > 0 && sthAnswers > 0 {
+						// a poll answered 429 (rate limit) or 404: an HTTP-level failure like any other, the scan carries on
+						for _, code := range []int{429, 404} {
+							add(fmt.Sprintf("%s <- HTTP %d", p.Key, code), base+1, func() {
+								faults--
+								sthAnswers++
+								env.Answer(p, sthAns{err: jsonclient.RspError{StatusCode: code, Err: fmt.Errorf("got HTTP status %d", code)}})
+							})
+						}
+					}
 					if faults > 0 {
 						add(p.Key+" <- error", base+1, func() {
 							faults--
